@@ -26,7 +26,7 @@ def cases(tier):
         for dims in itertools.product([2, 3] if (q or d == 4) else [2, 3, 4], repeat=d):
             for m in ((3, 4, 5, 6) if q else (3, 4, 5, 6, 8, 10)):
                 for fam, thr in (('generic', 0), ('generic', 1e-10), ('lowrank2', 1e-10), ('lowrank3', 1e-10), ('smalleig', 1e-2), ('smalleig', 1e-10),
-                                 ('impulses', 0), ('impulses', 1e-10), ('nearsym', 0), ('nearsym', 1e-10), ('nearcut', 1e-3), ('nearcut', 1e-6), ('coarsecut', 0.1), ('rank1bond', 1e-10), ('rank1bond', 0)):
+                                 ('impulses', 0), ('impulses', 1e-10), ('nearsym', 0), ('nearsym', 1e-10), ('whitened', 0), ('whitened', 1e-10), ('tinyunits', 1e-10), ('nearcut', 1e-3), ('nearcut', 1e-6), ('coarsecut', 0.1), ('rank1bond', 1e-10), ('rank1bond', 0)):
                     for rep in ('ttsvd', 'over', 'split', 'orthod'):
                         for fl in ('TT', 'FT', 'TF', 'FF'):
                             if rep in ('over', 'split', 'orthod') and fl != 'TT':
@@ -37,6 +37,8 @@ def cases(tier):
                                 continue
                             if fam in ('nearcut', 'coarsecut') and rep != 'ttsvd':
                                 continue      # the cut sits just below a singular value: only the representation whose spatial cores are orthonormal
+                            if fam == 'tinyunits' and (rep != 'ttsvd' or d < 2 or fl != 'TT'):
+                                continue
                             if rep == 'orthod' and thr > 1e-6:
                                 continue      # a coarse cut also acts on the spatial bonds, whose spectra depend on the gauge
                             yield {'dims': list(dims), 'm': m, 'fam': fam, 'thr': thr, 'rep': rep, 'fl': fl}
@@ -69,6 +71,22 @@ def make_data(rng, dims, m, fam, thr=0):
         U = np.linalg.qr(rng.standard_normal((N, k)))[0]; V = np.linalg.qr(rng.standard_normal((m, k)))[0]
         X = (U * np.linspace(3.0, 1.0, k)) @ V.T
         return X, (S + 1e-6 * K) @ X
+    if fam == 'whitened':
+        # whitened snapshots: every singular value is 1 up to a few 1e-6, so the snapshot core of TT(X) has orthogonal rows of norm
+        # 1 + O(1e-6) -- nearly, but not, right-orthonormal
+        k = min(N, m)
+        U = np.linalg.qr(rng.standard_normal((N, k)))[0]; V = np.linalg.qr(rng.standard_normal((m, k)))[0]
+        X = (U * (1.0 + 5e-6 * np.linspace(-1, 1, k))) @ V.T
+        A = rng.standard_normal((N, N)) / np.sqrt(N)
+        return X, A @ X
+    if fam == 'tinyunits':
+        # data in tiny units (x 1e-24) whose first spatial unfolding has the singular values (1, 5e-3): x[i, j.., t] = a0[i] z0[j.., t] +
+        # 5e-3 a1[i] z1[j.., t]; the represented snapshots are handed over right-orthonormalised (the scale sits in the first core)
+        n1 = dims[0]; rest = N // n1
+        Qa = np.linalg.qr(rng.standard_normal((n1, 2)))[0]
+        Z0 = rng.standard_normal((rest, m + 1)); Z1 = rng.standard_normal((rest, m + 1))
+        Z = np.kron(Qa[:, :1], Z0) + 5e-3 * np.kron(Qa[:, 1:2], Z1)
+        return 1e-24 * Z[:, :-1], 1e-24 * Z[:, 1:]
     if fam == 'coarsecut':
         # singular values 1, .6, .3, .05, .03 and a relative cut of 0.1 that discards two directions which are far from negligible
         k = min(N, m, 5)
@@ -148,6 +166,8 @@ def run_case(case, seed):
             rest = TT(Zm.reshape(dims[1:] + [Mx.shape[1]] + [1] * d))
             return TT([avec.reshape(1, n1, 1, 1)] + [c_.copy() for c_ in rest.cores])
         x = fact(X); y = fact(Y)
+    if case['fam'] == 'tinyunits':
+        x.ortho_right(); y.ortho_right()
     if case['rep'] == 'over':
         x = x + tt.zeros(dims + [m], [1] * (d + 1), 1); y = y + tt.zeros(dims + [m], [1] * (d + 1), 1)
     if case['rep'] == 'split':
